@@ -261,6 +261,9 @@ class ExprGen:
                 args = (self.gen_arg("f", d, True),)
                 kw = [x for x in [("k", self.gen_arg("f", -1, False)) if rng.random() < 0.6 else None,
                                   ("q", self.gen_arg("f", 0, False)) if rng.random() < 0.5 else None] if x]
+                if rng.random() < 0.25:
+                    kw.append(("x", args[0]))    # every argument by keyword: f.lin(x=.., k=..), no positional argument at all
+                    args = ()
                 if rng.random() < 0.5:
                     kw.reverse()                 # keyword arguments are written in any order
                 kw = tuple(kw)
